@@ -369,7 +369,8 @@ def observe_wedge(case):
         rec['cs'], rec['cs0'] = str(n), format(n, '!s')
         rec['cr'], rec['cr0'] = str(ref), format(ref, '!s')
         out = io.StringIO()
-        with (ESDFWrite if case['fmt'].startswith('v3000') else SDFWrite)(out) as w:
+        # without atom-map numbers: RDKit ranks substituents by them and then labels double bonds whose substituents are otherwise equal
+        with (ESDFWrite if case['fmt'].startswith('v3000') else SDFWrite)(out, mapping=False) as w:
             w.write(b)
         r2 = Chem.MolFromMolBlock(out.getvalue().split('$$$$')[0])
         if r2 is None:
@@ -378,7 +379,9 @@ def observe_wedge(case):
         for a in r2.GetAtoms():
             a.SetAtomMapNum(0)
         rec['rs'], rec['rs0'] = Chem.MolToSmiles(r2), Chem.MolToSmiles(r2, isomericSmiles=False)
-        r0 = Chem.MolFromSmiles(s)
+        # the reference on RDKit's side is its reading of its own record of the same drawing (from a drawing RDKit may label a double
+        # bond whose substituents are equal; reading the SMILES would not show that and blame the library's record)
+        r0 = Chem.MolFromMolBlock(block)
         rec['rr'], rec['rr0'] = Chem.MolToSmiles(r0), Chem.MolToSmiles(r0, isomericSmiles=False)
     except Exception as e:
         rec['exc'] = type(e).__name__
